@@ -277,6 +277,11 @@ Named(name) ==
   CASE name = "RecList" ->
          StructT(<<Fld(<<118>>, [k |-> "u8"], "plain", FALSE, <<>>),
                    Fld(<<110, 101, 120, 116>>, [k |-> "opt", e |-> [k |-> "box", e |-> NamedT("RecList")]], "Option", FALSE, <<>>)>>, <<>>)
+    [] name = "RecEvo" ->     \* a recursive record WITH a header at every level: struct { v: u8, next: Option<Box<Self>>, label: u8 (added) }
+         StructT(<<Fld(<<118>>, [k |-> "u8"], "plain", FALSE, <<>>),
+                   Fld(<<110, 101, 120, 116>>, [k |-> "opt", e |-> [k |-> "box", e |-> NamedT("RecEvo")]], "Option", FALSE, <<>>),
+                   Fld(<<108, 97, 98, 101, 108>>, [k |-> "u8"], "plain", FALSE, <<0, 0>>)>>,
+                 <<Stp("Added", <<108, 97, 98, 101, 108>>, <<0, 0>>)>>)
     [] name = "RecTree" ->
          StructT(<<Fld(<<118>>, [k |-> "u8"], "plain", FALSE, <<>>),
                    Fld(<<107, 105, 100, 115>>, [k |-> "vec", e |-> NamedT("RecTree")], "plain", FALSE, <<8>>)>>,
